@@ -121,8 +121,9 @@ define {
     \cup (IF ~IsKey(k) THEN {} ELSE
           \* C04: the IK was already expired when the operation began although the store accepted every write
           (IF ~o.sfault /\ ExpiredAt(k.created, t) THEN {"C04.NoExpiredIK"} ELSE {})
-          \* C04: IK whose parent SK expired more than R ago
-     \cup (IF ~o.sfault /\ ExpiredAt(k.parent + R, t) THEN {IF k.dref THEN "C04.ParentExpiryBounded/decrypt-refresh" ELSE "C04.ParentExpiryBounded"} ELSE {})
+          \* C04: IK whose parent SK expired more than R ago (the store having accepted every write of this process since that expiry:
+          \* a refused system key insert leaves only the old key to work under, and the IK created then lives on in the cache)
+     \cup (IF ~o.sfault /\ lastSF < k.parent + E /\ ExpiredAt(k.parent + R, t) THEN {IF k.dref THEN "C04.ParentExpiryBounded/decrypt-refresh" ELSE "C04.ParentExpiryBounded"} ELSE {})
           \* C05: IK revoked more than R ago and a later stamp exists
           \* (a replacement could be persisted: no Store fault hit this process since the revocation)
      \cup (IF o.faults = 0 /\ Stamp(t) > k.created /\ \E tr \in RevokedAtOf("IK", part, k.created) : t > tr + R /\ lastSF < tr
@@ -431,7 +432,8 @@ EncViolations(k, o, part, lastSF) ==
 
         (IF ~o.sfault /\ ExpiredAt(k.created, t) THEN {"C04.NoExpiredIK"} ELSE {})
 
-   \cup (IF ~o.sfault /\ ExpiredAt(k.parent + R, t) THEN {IF k.dref THEN "C04.ParentExpiryBounded/decrypt-refresh" ELSE "C04.ParentExpiryBounded"} ELSE {})
+
+   \cup (IF ~o.sfault /\ lastSF < k.parent + E /\ ExpiredAt(k.parent + R, t) THEN {IF k.dref THEN "C04.ParentExpiryBounded/decrypt-refresh" ELSE "C04.ParentExpiryBounded"} ELSE {})
 
 
    \cup (IF o.faults = 0 /\ Stamp(t) > k.created /\ \E tr \in RevokedAtOf("IK", part, k.created) : t > tr + R /\ lastSF < tr
